@@ -263,7 +263,13 @@ pub fn collect_modules(entry_path: &str) -> CliResult<Vec<ParsedModule>> {
                         }
                     } else {
                         for _ in 0..path.parent_levels {
-                            target_dir = target_dir.parent().map(|p| p.to_path_buf()).unwrap_or(target_dir);
+                            // `Path::parent` cannot go above a relative path's first component ("" has no parent), which
+                            // made `..` a no-op for an entry file given as a bare relative name; step up lexically instead.
+                            let can_pop = target_dir.file_name().is_some_and(|name| name != "..");
+                            target_dir = match target_dir.parent() {
+                                Some(parent) if can_pop => parent.to_path_buf(),
+                                _ => target_dir.join(".."),
+                            };
                         }
                     }
 
